@@ -256,8 +256,11 @@ class VerifyingKey(object):
            (if set to False) or if it should be delayed to the time of first
            use (when set to True)
         """
-        self.pubkey.point = ellipticcurve.PointJacobi.from_affine(
-            self.pubkey.point, True
+        # the public point may carry no order of its own (a key built from a
+        # plain affine Point): the table needs one, the curve's order is it
+        point = self.pubkey.point
+        self.pubkey.point = ellipticcurve.PointJacobi(
+            self.curve.curve, point.x(), point.y(), 1, self.curve.order, True
         )
         # as precomputation in now delayed to the time of first use of the
         # point and we were asked specifically to precompute now, make
